@@ -594,6 +594,17 @@ def fam_inv_sub(tier: str, rng: random.Random) -> Iterator[dict]:
                         drv = [Op("call", ctor, 1, 1)] + [Op("call", m, 1, a) for m, a in ops]
                         yield Prog([dict(f) for f in fns], [dict(c) for c in cons], [], [dict(c1), dict(c2)], obj, [drv],
                                    tag="inv-sub")
+                    if super_pos in ("first", "noinit") and oncall1:
+                        # (the base class has invariants checked on calls as well, so that the inherited method is
+                        #  wrapped in the base: the chain of a callable does not depend on the class of the instance)
+                        # an instance of the base class and one of the subclass use the same inherited method, in
+                        # both orders: each call is judged by the invariants of the class of ITS instance
+                        obj2 = [{"cls": 2, "st0": 0}, {"cls": 1, "st0": 0}]
+                        for order in ((2, 1), (1, 2)):
+                            drv = [Op("call", ctor, 1, 1), Op("call", 1, 2, 1), Op("call", n_break, 1, 1)]
+                            drv += [Op("call", 2, o, 1) for o in order] + [Op("call", 2, o, 1) for o in order]
+                            yield Prog([dict(f) for f in fns], [dict(c) for c in cons], [], [dict(c1), dict(c2)], obj2,
+                                       [drv], tag="inv-sub-two-instances")
 
 
 # ------------------------------------------------------------------------------------------------------
